@@ -158,6 +158,20 @@ pub fn corrupt(msg: &Msg, op: u8, pos: u32, byte: u8) -> Option<Corrupted> {
     let r = msg.render();
     let pos = pos as usize;
     let hb = 0x80 | byte; // a byte >= 0x80
+    // "longer than 12": mostly 13, sometimes far longer (counters that wrap at 256 / 65536)
+    let too_long: usize = match byte % 16 {
+        0 => 14,
+        1 => 20,
+        2 => 255,
+        3 => 256,
+        4 => 257,
+        5 => 256 + 12,
+        6 => 256 + 13,
+        7 => 300,
+        8 => 512 + 5,
+        9 => 65536 + 3,
+        _ => 13,
+    };
     let data: Vec<(usize, &Datum, (usize, usize, usize))> = {
         let mut v = Vec::new();
         let mut k = 0;
@@ -188,7 +202,7 @@ pub fn corrupt(msg: &Msg, op: u8, pos: u32, byte: u8) -> Option<Corrupted> {
                 let k = pick(r.mnemonic_spans.len());
                 let (s, e) = r.mnemonic_spans[k];
                 let mut m = r.bytes[s..e].to_vec();
-                while m.len() < 13 {
+                while m.len() < too_long {
                     m.push(b'Q');
                 }
                 Some(Corrupted { bytes: splice(s, e, &m), prefix: r.tokens[..mn_tok(k)].to_vec(), partial: None, what: "13-character mnemonic", run_level: false })
@@ -201,7 +215,7 @@ pub fn corrupt(msg: &Msg, op: u8, pos: u32, byte: u8) -> Option<Corrupted> {
                     let k = c[pick(c.len())];
                     let (_, s, e) = data[k].2;
                     let mut m = r.bytes[s..e].to_vec();
-                    while m.len() < 13 {
+                    while m.len() < too_long {
                         m.push(b'q');
                     }
                     Some(Corrupted { bytes: splice(s, e, &m), prefix: r.tokens[..data_tok(k)].to_vec(), partial: None, what: "13-character character datum", run_level: false })
@@ -216,7 +230,7 @@ pub fn corrupt(msg: &Msg, op: u8, pos: u32, byte: u8) -> Option<Corrupted> {
                     let (_, s, e) = data[k].2;
                     let mut m = r.bytes[s..e].to_vec();
                     let sl = if let Datum::Dec { suffix: Some((_, sfx)), .. } = data[k].1 { sfx.len() } else { 0 };
-                    for _ in sl..13 {
+                    for _ in sl..too_long {
                         m.push(b'Z');
                     }
                     Some(Corrupted { bytes: splice(s, e, &m), prefix: r.tokens[..data_tok(k)].to_vec(), partial: None, what: "13-character suffix", run_level: false })
